@@ -77,3 +77,5 @@ func lowerFirst(s string) string {
 	}
 	return string(b)
 }
+
+func init() { registerGen("Quote", genQuote) }
